@@ -71,7 +71,6 @@ Comps(s) == 1..NComp[s]
 \* constants for the configs (no tuples in .cfg files)
 DefNComp == <<2, 2, 1>>
 DefNCompA == <<2, 1, 1>>
-DefNCompB == <<1, 2, 1>>
 DefKCfgs == {[mul |-> <<1, 1>>, w |-> <<1, 1>>],      \* degenerate table: every quadrature point the same
              [mul |-> <<0, 2>>, w |-> <<3, 1>>]}      \* generic: a transparent and an opaque quadrature point
 NoK == [mul |-> <<1>>, w |-> <<1>>]
